@@ -573,7 +573,7 @@ func (e *Engine) Verify(con *Contract, quick bool) *FuncResult {
 		res.NInstr += len(b.Instrs)
 	}
 	vc := &VC{eng: e, q: NewQuery(), fn: fn, con: con, structSorts: map[string]Sort{}, memSorts: map[string]Sort{},
-		strLits: map[string]Term{}, oblCount: map[string]int{}, callAssertHit: map[*CallAssert]bool{}, assumed: map[string]bool{}, havocked: map[string]bool{},
+		strLits: map[string]Term{}, oblCount: map[string]int{}, callAssertHit: map[*CallAssert]bool{}, casNames: map[string]bool{}, casPre: map[string]bool{}, assumed: map[string]bool{}, havocked: map[string]bool{},
 		usedContracts: map[string]bool{}, assumedFacts: map[string]bool{}, quick: quick}
 	if con.Mode == "bv" {
 		vc.bv = true
@@ -623,6 +623,11 @@ func (vc *VC) run() {
 	alloc0 := vc.q.Declare("alloc$0", SInt)
 	vc.q.Assert(Le(IntLit(1), alloc0))
 	st := &State{reach: True, mem: map[string]Term{}, alloc: alloc0}
+	vc.registerCasNames(fn)
+	for n := range vc.casNames {
+		vc.casPre[n] = true
+		vc.get(st, n, casSort)
+	}
 	fr.entry = st.clone()
 	for _, p := range fn.Params {
 		t := vc.q.Declare("p$"+sanitize(p.Name()), vc.sortOf(p.Type()))
